@@ -3,6 +3,7 @@
 package main
 
 import (
+	"runtime/pprof"
 	"encoding/json"
 	"flag"
 	"fmt"
@@ -22,7 +23,13 @@ func main() {
 	deadline := flag.Duration("deadline", 0, "internal deadline")
 	replay := flag.String("replay", "", "replay file")
 	only := flag.String("only", "", "run only this scenario")
+	cpuprof := flag.String("cpuprofile", "", "write a CPU profile")
 	flag.Parse()
+	if *cpuprof != "" {
+		f, _ := os.Create(*cpuprof)
+		pprof.StartCPUProfile(f)
+		defer pprof.StopCPUProfile()
+	}
 	c := &props.Ctx{Prop: *prop, Tier: *tier, Shard: *shard, NShards: *nshards, Seed: *seed, Race: vsched.RaceBaton}
 	c.Only = *only
 	if *deadline > 0 {
